@@ -106,6 +106,17 @@ def generate(rng, rep=None, odd_names=False, n_exe=2, n_lib=1, with_commands=Tru
             L.append("command(%s, cmd=[%s] + %s, environment=%s)" % (
                 pyrepr('cmd%d' % i), pyrepr(shtools.ARGVREC), pyrepr(args), pyrepr(env)))
             p.steps.append({'kind': 'command', 'name': 'cmd%d' % i, 'args': args, 'env': env})
+        # a command given as ONE shell line that starts two processes, and a command with two command lines: the declared
+        # environment belongs to the step, so every process of it must receive it
+        senv = {'V3': adversarial_arg(rng, rep)}
+        sep = rng.choice([' && ', ' ; '])
+        L.append("command('scmd', cmd=%s, environment=%s)" % (
+            pyrepr("%s first 'a b'%s%s second" % (shtools.ARGVREC, sep, shtools.ARGVREC)), pyrepr(senv)))
+        p.steps.append({'kind': 'shell_command', 'name': 'scmd', 'procs': [['first', 'a b'], ['second']], 'env': senv})
+        menv = {'V2': adversarial_arg(rng, rep)}
+        L.append("command('mcmd', cmds=[[%s, 'm1'], [%s, 'm2', 'x y']], environment=%s)" % (
+            pyrepr(shtools.ARGVREC), pyrepr(shtools.ARGVREC), pyrepr(menv)))
+        p.steps.append({'kind': 'shell_command', 'name': 'mcmd', 'procs': [['m1'], ['m2', 'x y']], 'env': menv})
         # a build step with two outputs and an input file
         p.files['gen.in'] = 'data\n'
         bargs = [adversarial_arg(rng, rep) for _ in range(2)]
@@ -114,6 +125,13 @@ def generate(rng, rep=None, odd_names=False, n_exe=2, n_lib=1, with_commands=Tru
         p.steps.append({'kind': 'build_step', 'outputs': ['out1.txt', 'out2.txt'], 'args': ['-o', 'out1.txt', '-o', 'out2.txt'] + bargs,
                         'inputs': ['gen.in']})
         L.append("copy_file(%s, 'gen.in')" % pyrepr('copied.txt'))
+        # copies, symbolic and hard links of source-tree files and of generated files, at the top of the build directory and
+        # in (nested) sub-directories: a symbolic link's target is written relative to the directory of the link
+        modes = ['copy', 'symlink', 'hardlink']
+        L.append("copy_file('cdir/sub/from_step.txt', bs[0], mode=%r)" % rng.choice(modes))
+        L.append("copy_file('cdir/from_src.txt', 'gen.in', mode=%r)" % rng.choice(modes))
+        L.append("copy_file('cdir/link_to_step.txt', bs[1], mode='symlink')")
+        L.append("copy_file('top_link.txt', bs[1], mode=%r)" % rng.choice(modes))
         L.append("alias('everything', [exe0] + list(bs))")
         L.append("default(exe0, *bs)")
     if with_tests:
